@@ -9,7 +9,7 @@ use vbase::{ensure, fail};
 
 use crate::sx::{cmp_node, walk};
 
-pub const RULE: &str = "cases are well-formed JSON texts (generated with independent layout incl. duplicate keys, escapes, long strings, every alignment prefix 0..64; golden documents padded to every total length; the repository's benchmark corpus files). Each is parsed through the routes {from_slice/from_str whole input (in-place padded parser), struct field, Option<Value> behind whitespace, two elements of Vec<Value>, 2nd and 3rd document of Deserializer::deserialize and of into_stream (copying parser)} x {default, use_rawnumber(), utf8_lossy()}; every resulting Value is walked through the public read API and compared node by node with the reference parse (order and duplicates kept, decoded strings, numbers by the C07 rule, raw numbers byte-equal to the literal); routes must also agree with each other by == and to_string. Every Deserializer route parses from a private heap copy of the text that is overwritten and freed before the Value is walked (a Value has no lifetime and must own everything). Non-trivial = at least one container and at least three values; distinct by text.";
+pub const RULE: &str = "cases are well-formed JSON texts (generated with independent layout incl. duplicate keys, escapes, long strings, every alignment prefix 0..64; golden documents padded to every total length; the repository's benchmark corpus files). Each is parsed through the routes {from_slice/from_str whole input (in-place padded parser), struct field, Option<Value> behind whitespace, two elements of Vec<Value>, 2nd and 3rd document of Deserializer::deserialize and of into_stream (copying parser)} x {default, use_rawnumber(), utf8_lossy()}; every resulting Value is walked through the public read API and compared node by node with the reference parse (order and duplicates kept, decoded strings, numbers by the C07 rule, raw numbers byte-equal to the literal); routes must also agree with each other by == and to_string; sub-check stream-mix reads 2..6 generated documents (incl. many-small, bracket-burst and skip-stress ones) through ONE deserializer into alternating targets (Value, LazyValue, IgnoredAny, OwnedLazyValue) and requires each to come out as if parsed alone. Every Deserializer route parses from a private heap copy of the text that is overwritten and freed before the Value is walked (a Value has no lifetime and must own everything). Non-trivial = at least one container and at least three values; distinct by text.";
 pub const ASSUMPTIONS: &[&str] = &["refjson parser is correct (self-tested against serde_json on every run)", "Rust std str::parse::<f64>/<u64>/<i64> are exact"];
 
 #[derive(Deserialize)]
@@ -154,11 +154,81 @@ pub fn oracle(t: &[u8], obs: &mut Obs) -> Result<(), Fail> {
     Ok(())
 }
 
+/// Several documents read through ONE deserializer, each into a different kind of target; every
+/// document must come out as if it had been parsed alone (no state may leak from one document, or
+/// from a skipped one, into the next). case = choice sequence.
+pub fn oracle_stream(case: &[u8], obs: &mut Obs) -> Result<(), Fail> {
+    use sonic_rs::{JsonValueTrait, LazyValue, OwnedLazyValue};
+    let mut src = Src::new(case);
+    let p = DocParams { ws: 1, max_depth: 4, max_items: 4, dup_keys: true, align: 0, ..DocParams::default() };
+    let ndocs = 2 + src.below(5);
+    let mut docs: Vec<(Vec<u8>, u8)> = Vec::new();
+    for _ in 0..ndocs {
+        let d = match src.below(6) {
+            0 => gens::gen_many_small(&mut src),
+            1 => crate::lazyhelp::gen_bracket_stress(&mut src),
+            2 => crate::lazyhelp::gen_skip_stress(&mut src, &p),
+            _ => gens::gen_doc(&mut src, &p),
+        };
+        let Ok((_, sum)) = refjson::parse(&d) else { fail!("C03/generator", "generator produced a text the reference rejects: {:?}", show_bytes(&d, 200)) };
+        if !(sum.scalars_ok && sum.finite_ok) || std::str::from_utf8(&d).is_err() || d.len() > 20_000 {
+            continue;
+        }
+        docs.push((d, src.below(5) as u8));
+    }
+    if docs.len() < 2 {
+        return Ok(());
+    }
+    obs.nt();
+    let mode = [Mode::Default, Mode::Raw, Mode::Lossy][src.below(3)];
+    let raw = mode == Mode::Raw;
+    let sep: &[u8] = *src.pick(&[&b" "[..], b"\n", b"", b"\r\n\t "]);
+    let mut text = Vec::new();
+    for (i, (d, _)) in docs.iter().enumerate() {
+        if i > 0 {
+            // two scalars need a separator; containers and strings do not
+            let need = sep.is_empty() && !matches!(d[refjson::skip_ws(d, 0)], b'[' | b'{' | b'"') || sep.is_empty() && !matches!(text.last(), Some(b']' | b'}' | b'"'));
+            text.extend_from_slice(if need { b" " } else { sep });
+        }
+        text.extend_from_slice(d);
+    }
+    obs.render = Some(format!("mode={} targets={:?} text={}", ["default", "rawnumber", "lossy"][mode as usize], docs.iter().map(|d| d.1).collect::<Vec<_>>(), show_bytes(&text, 400)));
+    let mut de = de_with(&text, mode);
+    for (i, (d, target)) in docs.iter().enumerate() {
+        let (node, _) = refjson::parse(d).unwrap();
+        let trimmed = &d[node.span.start..node.span.end];
+        let what = |e: sonic_rs::Error| Fail::new("C03/stream-mix/rejects-valid", format!("document {} (target {target}) of {:?} rejected: {e}", i + 1, show_bytes(&text, 300)));
+        match target {
+            0 | 1 => {
+                let v: Value = de.deserialize().map_err(what)?;
+                check_value("stream-mix Value", if raw { "stream-mix-raw" } else { "stream-mix" }, &node, d, &v, raw)?;
+            }
+            2 => {
+                let l: LazyValue = de.deserialize().map_err(what)?;
+                ensure!(l.as_raw_str().as_bytes() == trimmed, "C03/stream-mix/lazy-span", "document {} read as LazyValue has raw text {:?}, expected {:?}", i + 1, refjson::trunc(l.as_raw_str(), 120), show_bytes(trimmed, 120));
+            }
+            3 => {
+                let _: serde::de::IgnoredAny = de.deserialize().map_err(what)?;
+            }
+            _ => {
+                let o: OwnedLazyValue = de.deserialize().map_err(what)?;
+                let t = sonic_rs::to_string(&o).map_err(|e| Fail::new("C03/stream-mix/ser", format!("{e}")))?;
+                ensure!(t.as_bytes() == trimmed, "C03/stream-mix/lazy-span", "document {} read as OwnedLazyValue serializes as {:?}, expected {:?}", i + 1, refjson::trunc(&t, 120), show_bytes(trimmed, 120));
+                let _ = o.get_type();
+            }
+        }
+    }
+    // nothing but whitespace may be left
+    ensure!(de.deserialize::<Value>().is_err(), "C03/stream-mix/extra-document", "a further document was read after the last one of {:?}", show_bytes(&text, 300));
+    Ok(())
+}
+
 pub fn subs() -> Vec<Sub<'static>> {
     vec![
         Sub { name: "docs", oracle: &oracle, minimise_bytes: false },
         Sub { name: "aligned", oracle: &oracle, minimise_bytes: false },
         Sub { name: "corpus", oracle: &oracle, minimise_bytes: false },
+        Sub { name: "stream-mix", oracle: &oracle_stream, minimise_bytes: false },
     ]
 }
 
@@ -173,6 +243,8 @@ pub fn run(ctx: &Ctx) {
     ctx.search(&s, "dup-keys", ctx.n(1_200_000, 9_600_000), 600, &move |src: &mut Src| gens::gen_doc(src, &pc));
     let pc = DocParams { ws: 1, dup_keys: false, max_depth: 8, max_items: 10, ..DocParams::default() };
     ctx.search(&s, "plain", ctx.n(1_200_000, 9_600_000), 1200, &move |src: &mut Src| gens::gen_container_doc(src, &pc));
+
+    ctx.search(&sub("stream-mix"), "stream-mix", ctx.n(300_000, 3_000_000), 400, &|src: &mut Src| src.rest().to_vec());
 
     // alignment sweep: golden documents at every offset and padded to every length
     let s = sub("aligned");
